@@ -339,9 +339,16 @@ func (d *dealer) yield(callee *wamp.Session, msg *wamp.Yield) {
 	var again bool
 	progress, _ := msg.Options[wamp.OptProgress].(bool)
 
+	// The meta session serves the meta procedure calls of every session in
+	// the realm, and all meta events, joins and leaves go through its handler.
+	// It must not be held back, for up to the retry deadline, by one caller
+	// that is not reading its results. Its results are not retried: a caller
+	// whose queue is full has the call canceled right away.
+	canRetry := callee.ID != metaID
+
 	done := make(chan struct{})
 	d.actionChan <- func() {
-		again = d.syncYield(callee, msg, progress, true)
+		again = d.syncYield(callee, msg, progress, canRetry)
 		done <- struct{}{}
 	}
 	<-done
